@@ -88,7 +88,7 @@ fn gen_arbitrary_http(t: &mut Tape, apps: &[AppSpec], p: &Profile) -> HttpSpec {
         0 | 1 => HttpSpec::Resp(RespSpec {
             status: 100 + t.choose(500) as u16,
             retry_after: t.vec_of(2, |t| gen_retry_after_value(t, true)),
-            retry_after_name_case: t.choose(3) as u8,
+            retry_after_name_case: t.choose(5) as u8,
             body: BodySpec::Raw(RawBody::Arbitrary(match t.choose(5) {
                 0 => t.bytes(40),
                 4 => {
